@@ -111,12 +111,20 @@ deriving DecidableEq, Repr
 structure Facts where
   rej1 : RejParam     -- parameter $2 of deleteExpiredContractSectors
   rej2 : RejParam     -- parameter $2 of deleteExpiredV2ContractSectors
+  /-- the sector cache holds private copies: `writeSector` / `readLocation` cache a copy and a cache hit
+  returns a copy (false: the cache stores and returns the callers' pointers) -/
+  cacheCopies : Bool := false
+  /-- `StoreSector`'s rollback is `… WHERE id=$1 AND sector_id=$2` and only decrements the usage when
+  a row was affected (false: unconditional) -/
+  rollbackChecked : Bool := false
 deriving DecidableEq, Repr
 
 /-- the tree as it is now (after fix 039186a) -/
 def Facts.code : Facts := { rej1 := .v1const, rej2 := .v2const }
 /-- the tree before the fix: both queries bound the v1 integer constant -/
 def Facts.beforeFix : Facts := { rej1 := .v1const, rej2 := .v1const }
+/-- the tree with the proposed repairs of the cache aliasing and of the rollback double decrement -/
+def Facts.fixed : Facts := { rej1 := .v1const, rej2 := .v2const, cacheCopies := true, rollbackChecked := true }
 
 def Facts.match1 (f : Facts) (s : S1) : Bool :=
   match f.rej1 with
@@ -813,6 +821,51 @@ def step (f : Facts) (s : State) : Op → State × Res
   | .vmRemove v force moves => vmRemove s v force moves
 
 def run (f : Facts) (s : State) (ops : List Op) : State := ops.foldl (fun s op => (step f s op).1) s
+
+/-! ### the two repairs, selectable through `Facts` -/
+
+/-- every cache entry gets a private buffer holding a copy of what it pointed to -/
+def unaliasGo : List Content → List (SectorId × BufId) → List Content × List (SectorId × BufId)
+  | heap, [] => (heap, [])
+  | heap, (r, b) :: rest =>
+    let c := match heap[b]? with
+      | some c => c
+      | none => Content.garbage      -- a cached pointer is always valid (never taken, see `unalias_good`)
+    let res := unaliasGo (heap ++ [c]) rest
+    (res.1, (r, heap.length) :: res.2)
+
+/-- Copy semantics of the sector cache: after the operation no buffer a caller knows is shared with
+the cache (equivalent to caching a copy in `writeSector` / `readLocation` and returning a copy on a hit). -/
+def unalias (s : State) : State :=
+  { s with heap := (unaliasGo s.heap s.cache).1, cache := (unaliasGo s.heap s.cache).2 }
+
+def fixCache (f : Facts) (s : State) : State := if f.cacheCopies then unalias s else s
+
+/-- `finish` with the conditional rollback: the slot is only released (and the usage only decremented)
+if it still holds the sector -/
+def finishChecked (s : State) (w : Nat) (ok : Bool) : State × Res :=
+  match findPending w s.pending with
+  | none => (s, .badOracle "no such writer")
+  | some p =>
+    if ok then finish s w ok
+    else
+      let stillThere := match slotAt s.vols p.v p.i with
+        | some sl => sl.sec == some p.r
+        | none => false
+      if stillThere then finish s w ok
+      else ({ s with pending := s.pending.filter (fun q => q.w != w) }, .error "data write failed")
+
+def finishF (f : Facts) (s : State) (w : Nat) (ok : Bool) : State × Res :=
+  if f.rollbackChecked then finishChecked s w ok else finish s w ok
+
+/-- one operation of the tree described by `f` -/
+def stepF (f : Facts) (s : State) (op : Op) : State × Res :=
+  let res := match op with
+    | .finish w ok => finishF f s w ok
+    | op => step f s op
+  (fixCache f res.1, res.2)
+
+def runF (f : Facts) (s : State) (ops : List Op) : State := ops.foldl (fun s op => (stepF f s op).1) s
 
 def init (cacheSize : Nat) : State := { cacheSize := cacheSize }
 
